@@ -10,7 +10,7 @@
    every order [ord] in which the leaves draw their number from the atomic
    counter (any injection of the leaves into [0, part_count)). *)
 From Coq Require Import Permutation QArith.
-From Coupe Require Import Lib.Prelude Lib.SFloat Model.MultiJagged Proofs.MultiJaggedProofs Proofs.MultiJaggedExact Gen.MjGen.
+From Coupe Require Import Lib.Prelude Lib.SFloat Model.MultiJagged Proofs.MultiJaggedProofs Proofs.MultiJaggedExact Proofs.MultiJaggedSim Gen.MjGen.
 Open Scope N_scope.
 
 (* the literals of multi_jagged.rs the model is written against, re-read from the source on every run *)
@@ -129,6 +129,27 @@ Theorem C11_balance_exact_sharp :
     (Z.abs (Z.of_N k * loadZ ws p b - sumZ ws) <= Z.of_N k * Z.of_nat m * maxZ ws)%Z.
 Proof. exact mj_balance_exact. Qed.
 Print Assumptions C11_balance_exact_sharp.
+
+(* the runs execute the exact model on normalised fractions ([QAred]: Qred after
+   every operation, to keep the numerators small): it is the same function *)
+Theorem C11_exact_run_is_exact_model : forall D npts (wq : list Q) sorter blk root ord k m p0,
+  multi_jagged QAred D npts wq sorter blk root ord k m p0 = multi_jagged QA D npts wq sorter blk root ord k m p0.
+Proof. exact multi_jagged_QAred. Qed.
+Print Assumptions C11_exact_run_is_exact_model.
+
+(* two schedules (orders in which the leaves draw their number) give the same
+   partition up to the names of the parts — why the runs compare canonical forms *)
+Theorem C11_leaf_order_irrelevant :
+  forall (A : arith) D npts (wts : list (num A)) sorter blk cxlt, sorter_ok sorter cxlt ->
+  forall sch parts d ord1 ord2 p0 p1 p2,
+  WfScheme A sch parts d -> ord_ok ord1 (N.to_nat parts) -> ord_ok ord2 (N.to_nat parts) ->
+  length p0 = npts ->
+  mj_with_scheme A D npts wts sorter blk ord1 sch p0 = Ok p1 ->
+  mj_with_scheme A D npts wts sorter blk ord2 sch p0 = Ok p2 ->
+  forall x y, (x < npts)%nat -> (y < npts)%nat ->
+    (nth_opt p1 x = nth_opt p1 y <-> nth_opt p2 x = nth_opt p2 y).
+Proof. exact mj_ord_indep. Qed.
+Print Assumptions C11_leaf_order_irrelevant.
 
 (* ---- non-vacuity: the oracle contracts are satisfiable, and a concrete run ---- *)
 
